@@ -309,6 +309,8 @@ def _check_wake(run, repo, world, mod):
     for cq, test in ((HID + ".tridonic", "message == 'fail'"),
                      (HID + ".hasseb", "self._response == 'fail'")):
         o, f2 = _fn(world, cq, "_send_raw")
+        from .. import astq
+        f2 = astq.propagate(f2)      # hoisted locals read as what they hold
         ok = False
         for n in ast.walk(f2):
             if isinstance(n, ast.If) and unparse(n.test) == test:
@@ -611,8 +613,23 @@ def _check_timeout(run, repo, world):
         hs = [(unparse(h.type), [unparse(s) for s in h.body]) for x in
               ast.walk(f2) if isinstance(x, ast.Try) for h in x.handlers
               if h.type is not None]
-        ok = any(t == "asyncio.exceptions.TimeoutError" and any(
-            "break" == b for b in body) for (t, body) in hs)
+        # the handler ends the wait (break, or return of the no-answer
+        # response) and does not raise
+        ok = False
+        for x in ast.walk(f2):
+            if not isinstance(x, ast.Try):
+                continue
+            for h in x.handlers:
+                if h.type is None or unparse(h.type).split(".")[-1] != \
+                        "TimeoutError":
+                    continue
+                kinds = {type(y) for b_ in h.body for y in ast.walk(b_)}
+                if (ast.Break in kinds or ast.Return in kinds) and \
+                        ast.Raise not in kinds and any(
+                            "_queue_rx_raw_dali" in unparse(b_, 400) or
+                            "wait_dali_raw_response" in unparse(b_, 400)
+                            for b_ in x.body):
+                    ok = True
         run.ob("R-TIMEOUT", cq + ".send#no-answer", ok,
                "an answer timeout must end the wait (no answer), not hang or "
                "raise", where(mod, f2))
